@@ -24,6 +24,7 @@ open Logrange.Truncate Driver
 def strict : Bool := Logrange.Generated.C09.timeLoopStrict
 def gMin : Nat := Logrange.Generated.C09.globalMinSrcSize
 def gMax : Nat := Logrange.Generated.C09.globalMaxSrcSize
+def acct : Bool := Logrange.Generated.C09.globalAccountsWhenDropRefused
 
 def natOf (s : String) : Nat := s.toNat?.getD 0
 def intOf (s : String) : Int := s.toInt?.getD 0
@@ -60,7 +61,7 @@ def b01 (b : Bool) : String := if b then "1" else "0"
 
 def showOutcome (p : Params) (order : List Part) : String :=
   let st1 := phase1 strict p order
-  let out := phase2 strict gMin gMax p st1
+  let out := phase2 acct strict gMin gMax p st1
   let reps := sortBy (fun (a b : Info) => a.src < b.src) out.reports
   let r := joinWith "," (reps.map (fun i => s!"{i.src}:{i.before}:{i.after}:{i.chunksDeleted}:{b01 i.deleted}"))
   let db := sortBy (fun (a b : Part) => a.src < b.src) out.db
